@@ -4,7 +4,7 @@
 (*                                      Database::new (reopen), rollback_last_block            *)
 (*   crates/fuel-core/src/database/metadata.rs : MetadataTable (persisted latest height)       *)
 (* One action per public call.  `cached`, `meta`, `pay`, `hist` transcribe what the code keeps; *)
-(* `glast`/`bad` are the ghosts the property talks about.                             *)
+(* `glast`/`gn`/`bad` are the ghosts the property talks about.                             *)
 EXTENDS Integers, Sequences, TLC
 
 CONSTANT MaxH                 \* heights 0..MaxH ; -1 encodes None
@@ -31,9 +31,10 @@ VARIABLES
   pay,             \* payload marker written by every commit (-1 absent, else 0/1): the data really applied
   hist,            \* rocks only: stack of reverse diffs [h, pm, pp] kept by the historical store
   glast,           \* ghost: height of the last successfully committed, not rolled back, block (-1 none)
+  gn,              \* ghost: how many height-carrying blocks are committed and not rolled back
   bad,             \* ghost: "" or the rule an ACCEPTED commit broke
   act
-vars == <<kind, backend, cached, meta, pay, hist, glast, bad>>
+vars == <<kind, backend, cached, meta, pay, hist, glast, gn, bad>>
 
 Flip(p) == IF p = 1 THEN 0 ELSE 1
 
@@ -54,7 +55,7 @@ NewHeight(k, S) == IF Len(Seen(k, S)) = 1 THEN Seen(k, S)[1] ELSE -1
 Init ==
   /\ kind = "none" /\ backend = "none"
   /\ cached = -1 /\ meta = -1 /\ pay = -1 /\ hist = <<>>
-  /\ glast = -1 /\ bad = ""
+  /\ glast = -1 /\ gn = 0 /\ bad = ""
   /\ act = [name |-> "Init"]
 
 (* ---- ghost rules = the property's own words ---------------------------------------------------*)
@@ -62,16 +63,20 @@ Init ==
 \* after the first height every commit carries a height.
 GhostCommit(S, res) ==
   LET E == Seen(kind, S) IN
-  IF res # "Ok" THEN UNCHANGED <<glast, bad>>
+  IF res # "Ok" THEN UNCHANGED <<glast, gn, bad>>
   ELSE /\ bad' = IF bad # "" THEN bad
                  ELSE IF Len(E) > 1 /\ E[1] # E[2] THEN "two-heights"
                  ELSE IF Len(E) >= 1 /\ glast # -1 /\ E[1] # glast + 1 THEN "not-linked"
                  ELSE IF Len(E) = 0 /\ glast # -1 THEN "missing-height"
                  ELSE ""
        /\ glast' = IF Len(E) >= 1 THEN E[Len(E)] ELSE glast
+       /\ gn' = IF Len(E) >= 1 THEN gn + 1 ELSE gn
+\* a rolled back block is gone: the last committed block is the previous one, or none if it was the only one
 GhostRollback(res) ==
-  IF res = "Ok" THEN /\ glast' = glast - 1 /\ bad' = bad
-  ELSE UNCHANGED <<glast, bad>>
+  IF res = "Ok" THEN /\ glast' = IF gn <= 1 THEN -1 ELSE glast - 1
+                     /\ gn' = IF gn = 0 THEN 0 ELSE gn - 1
+                     /\ bad' = bad
+  ELSE UNCHANGED <<glast, gn, bad>>
 
 \* the diffs the historical store keeps (rocks only); shared with the trace spec's observe mode
 HistCommit(S, res) ==
@@ -85,7 +90,7 @@ HistRollback(res) ==
 New(k, b) ==
   /\ kind = "none"
   /\ kind' = k /\ backend' = b
-  /\ UNCHANGED <<cached, meta, pay, hist, glast, bad>>
+  /\ UNCHANGED <<cached, meta, pay, hist, glast, gn, bad>>
   /\ act' = [name |-> "New", kind |-> k, backend |-> b]
 
 Commit(S) ==
@@ -108,13 +113,14 @@ Commit(S) ==
 Reopen ==
   /\ kind # "none"
   /\ cached' = meta
-  /\ UNCHANGED <<kind, backend, meta, pay, hist, glast, bad>>
+  /\ UNCHANGED <<kind, backend, meta, pay, hist, glast, gn, bad>>
   /\ act' = [name |-> "Reopen"]
 
-\* Database::rollback_last_block.  In C09 only rollbacks that HAVE a previous height are in the
-\* contract (at least two diffs kept): the property speaks about the last committed block,
-\* and rolling back the very first block leaves no block at all (see C09.py assumptions for what
-\* the code does there).
+\* Database::rollback_last_block.  The design spec (MC, B1, B3) rolls back only where a previous block
+\* remains (at least two diffs kept).  Rolling back the ONLY block is recorded as known finding C09-1: the code
+\* sets the cached height to h-1 (pred) although no block is left and the metadata table is empty again, so
+\* the reported height is wrong until the next reopen; it is exercised by a dedicated walk in checks/C09.py
+\* and judged by ReportedExact in observe mode.
 RollbackRes ==
   IF cached = -1 THEN "Err:NoHeight"
   ELSE IF backend = "mem" THEN "Err:NotImplemented"
@@ -153,8 +159,8 @@ RejectedChangesNothing ==
 
 TypeOK ==
   /\ cached \in -1..MaxH /\ meta \in -1..MaxH /\ pay \in {-1, 0, 1}
-  /\ glast \in -1..MaxH
+  /\ glast \in -1..MaxH /\ gn \in 0..(MaxH + 1)
 
 StateRec == [kind |-> kind, backend |-> backend, cached |-> cached, meta |-> meta, pay |-> pay,
-             hist |-> hist, glast |-> glast, bad |-> bad]
+             hist |-> hist, glast |-> glast, gn |-> gn, bad |-> bad]
 =============================================================================
